@@ -156,7 +156,11 @@ def dimension_cases() -> list[tuple[str, str, str]]:
         ("kilogram", U.kilogram, "meter", U.meter), ("meter", U.meter, "meter**2", U.meter**2),
         ("volt", U.volt, "ampere", U.ampere), ("meter", U.meter, "1", 1), ("1", 1, "second",
         U.second)]
-    for v in (1.0, 3.7, -2.5):
+    # exact values sympy keeps unevaluated (irrational, special functions whose finiteness it cannot
+    # decide) besides plain floats
+    exact_values = [sp.pi, sp.sqrt(2), sp.exp(-3), sp.besselj(0, 3), sp.besselj(0, sp.Float(1.2)),
+        sp.airyai(1), sp.erf(1), sp.zeta(3), sp.Si(2), sp.elliptic_e(sp.Rational(1, 2))]
+    for v in (1.0, 3.7, -2.5, *exact_values):
         for (an, a, bn, b) in equivalent:
             for x, y, tag in ((a, b, f"{an}~{bn}"), (b, a, f"{bn}~{an}")):
                 got = outcome(lambda: assert_equal(Quantity(v * x), Quantity(v * y)))
@@ -175,7 +179,7 @@ def dimension_cases() -> list[tuple[str, str, str]]:
         # spellings); numerically different exponents are inequivalent dimensions, identical
         # spellings are the same dimension; the same number written once exactly and once as a
         # float (2 vs 2.0) is left open (sympy keeps them apart, the property does not say)
-        if v == -2.5:
+        if v == -2.5 or not isinstance(v, float):
             continue
         for bname, mk in (("meter", lambda e: U.meter**e), ("ampere*hertz", lambda e: U.ampere *
             U.hertz**e), ("joule", lambda e: U.joule**e)):
